@@ -36,7 +36,8 @@ pub struct Expect {
     pub pol: String,
     pub at: u32,
     pub no_eligible: bool,
-    pub thresholds_ordered: bool,
+    pub accept_f: f64,
+    pub material_f: f64,
     pub threshold_adjacent: bool,
     pub rival_ineligible: usize,
 }
@@ -221,7 +222,8 @@ impl OState {
         e.opp = self.score(&co);
         e.no_eligible = !any_eligible;
         let p = &self.policy;
-        e.thresholds_ordered = 0 <= p.material && p.material <= p.accept;
+        e.accept_f = p.accept as f64 / p.den as f64;
+        e.material_f = p.material as f64 / p.den as f64;
         // classification (exact): score >= t/den  <=>  num * den >= t * sden
         let d = p.den as i128;
         let ge = |s: (i128, i128), t: i64| s.0 * d >= t as i128 * s.1;
@@ -254,6 +256,10 @@ impl OState {
             Op::A(r) => { self.rows.push(r.clone()); None }
             Op::Raise(i, c) => { if let Some(r) = self.rows.get_mut(*i) { r.conf = *c } None }
             Op::Status(i, s) => { if let Some(r) = self.rows.get_mut(*i) { r.status = *s } None }
+            // a withdrawn or replaced claim contributes nothing at EVERY evaluation instant: the
+            // instant of the lifecycle change is deliberately not looked at
+            Op::Retract(i, _) => { if let Some(r) = self.rows.get_mut(*i) { r.status = 'r' } None }
+            Op::Supersede(i, j, _) => { if *j < self.rows.len() && i != j && let Some(r) = self.rows.get_mut(*i) { r.status = 's' } None }
             Op::Project(t) => Some(vec![self.expect(*t)]),
             Op::SlotProject => Some(self.slot.clone().iter().map(|p| { let mut e = self.expect(*p); e.prop = Some(*p); e }).collect()),
             Op::Route(_) | Op::Bad(_) => None,
